@@ -159,6 +159,9 @@ class LumpSystem:
             self.M0 = base_matrix(n, kind).astype(np.int64)
         self.merge_pairs = merge_pairs
         self.alphabet = alphabet
+        if n > 12:                 # replay-only use for large matrices: the exhaustive alphabet is never enumerated
+            self._events = []
+            return
         singles = list(all_subsets(n, 2, n))
         self._singles = singles
         ev = [{"op": "merge", "J": [s]} for s in singles]
@@ -377,7 +380,22 @@ def bign_cases(tier):
                 if len(s1) >= 2:
                     cases.append({"n": n, "kind": "asym", "history": [{"op": "merge", "J": [s1]},
                                                                        {"op": "delete", "S": s2}]})
-    # drop histories whose first delete+second delete remove everything is impossible here (one delete only)
+    # larger matrices, longer structured histories (merge many pairs, delete a stripe, chain-merge through deleted cells,
+    # merge everything that is left in two steps)
+    for n in (24, 40):
+        for kind in ("asym", "sym"):
+            pairs = [[2 * i, 2 * i + 1] for i in range(n // 4)]
+            stripe = list(range(n // 2 + 1, n, 3))
+            chain = [[i, i + 2] for i in range(0, n - 2, 4)]
+            through_deleted = [[n // 2, stripe[0]], [stripe[0], n - 1], [stripe[1], 1]]
+            rest_a = [list(range(0, n, 2))]
+            rest_b = [list(range(1, n, 2)), [0, 1]]
+            hist = [{"op": "merge", "J": pairs}, {"op": "delete", "S": stripe}, {"op": "merge", "J": chain},
+                    {"op": "merge", "J": through_deleted}, {"op": "delete", "S": [3, stripe[0], n - 2]},
+                    {"op": "merge", "J": rest_a}, {"op": "delete", "S": []}, {"op": "merge", "J": rest_b}]
+            for L in range(2, len(hist) + 1):
+                cases.append({"n": n, "kind": kind, "history": hist[:L]})
+            cases.append({"n": n, "kind": kind, "history": hist[::-1][2:]})
     return cases
 
 
